@@ -35,7 +35,7 @@ def demo_run(wt, demo, tag, extra=''):
     exe = '%s/_demo_%s' % (wt, tag)
     cxx = demo.endswith('.cpp') or demo.endswith('.cc')
     cmd = ['g++' if cxx else 'gcc', '-O1', '-o', exe, demo, '-I' + wt + '/src', '-I' + wt + '/_build', '-DHAVE_CONFIG_H',
-           ] + [x.replace('{wt}', wt) for x in extra.split()] + [wt + '/_build/src/libascon_static.a']
+           ] + [x.replace('{wt}', wt) for x in extra.split() if x != 'RUN_UNDER_VALGRIND'] + [wt + '/_build/src/libascon_static.a']
     if cxx:
         cmd.insert(1, '-std=gnu++11')
     else:
@@ -44,7 +44,7 @@ def demo_run(wt, demo, tag, extra=''):
     if p.returncode:
         return None, p.stdout
     try:
-        p = sh([exe], timeout=600, cwd=wt)
+        p = sh((['valgrind', '-q'] if 'RUN_UNDER_VALGRIND' in extra else []) + [exe], timeout=900, cwd=wt)
     except subprocess.TimeoutExpired:
         return 124, 'timeout'
     return p.returncode, p.stdout[-1500:]
